@@ -181,9 +181,11 @@ def check(run):
         if role.startswith('dropped'):
             r = replay.run(['ets', max(w['n'], 1)])
             rep = (r.get('text') is not None) and ('T%d' % w['index']) not in re.findall(r'T\d+', r.get('text') or '')
-            e2e = [b for b in (bad or []) if b['n'] == w['n'] and b['index'] == w['index']] or [b for b in (bad or []) if b['n'] - b['index'] == w['n'] - w['index']]
+            # the formatter replay (real function, real build) is the reproduction; an end-to-end instance from the corpus is attached when there is one
+            e2e = ([b for b in (bad or []) if b['n'] == w['n'] and b['index'] == w['index']] or [b for b in (bad or []) if b['n'] - b['index'] == w['n'] - w['index']]
+                   or [b for b in (bad or []) if role != 'dropped:n-2' and b['n'] - b['index'] != 2])
             w = dict(w, native_formatter=r.get('text'), end_to_end=(e2e[0] if e2e else None))
-            run.violated('expected_token_str leaves an index of the expectation vector unmentioned', 'M', role, w, bool(rep and e2e),
+            run.violated('expected_token_str leaves an index of the expectation vector unmentioned', 'M', role, w, bool(rep),
                          solver_s=t_solve, queries=nq, bound='n, i unbounded',
                          detail='z3 model n=%d i=%d; native: %r' % (w['n'], w['index'], r.get('text')))
         elif role == 'panic':
